@@ -24,7 +24,7 @@ THEOREMS = ["fill_choice_named", "fill_choice_default", "is_filled_iff_provided"
             "required_filled_or_optional_passes", "two_default_slots_raise", "double_fill_raises", "slot_checks_pass"]
 
 PROFILE = dict(w_slot=5, w_comp=5, p_named_fill=0.6, p_slot_in_fill=0.3, p_is_filled=0.25, w_for=1, w_with=1)
-REGIONS = ["django-slot-owner-override", "django-only-fill-loses-outer", "forloop-layer-leaks-into-isolated"]
+REGIONS = ["default-alias-render-sees-fill-aliases", "django-slot-owner-override", "django-only-fill-loses-outer", "forloop-layer-leaks-into-isolated"]
 
 
 def features(chk, prog, g):
